@@ -715,7 +715,13 @@ func equivalentCheckConfigInV2(
 	if err != nil {
 		return nil, err
 	}
-	deprecations, err := bufcheck.GetDeprecatedIDToReplacementIDs(expectedRules)
+	// The deprecated IDs are taken from all the rules of the file version that is migrated,
+	// as ConfiguredRules never returns a deprecated rule.
+	allRules, err := client.AllRules(ctx, ruleType, checkConfig.FileVersion())
+	if err != nil {
+		return nil, err
+	}
+	deprecations, err := bufcheck.GetDeprecatedIDToReplacementIDs(allRules)
 	if err != nil {
 		return nil, err
 	}
